@@ -65,6 +65,8 @@ pub enum Event {
     TaskFinished { build: usize, term: Term, output: Vec<u8> },
     TaskOutput { build: usize, line: Vec<u8> },
     Log(String),
+    /// One frame painted by the shadow fancy console (C19 only).
+    Frame(Vec<u8>),
     /// A write to the db file: total length and how many bytes persisted.
     DbWrite { len: usize, persisted: usize },
 }
@@ -372,11 +374,49 @@ impl Hooks for HarnessHooks {
                 output,
             }),
             ProgressEvent::Log(s) => e.trace.push(Event::Log(s)),
+            ProgressEvent::Frame(b) => e.trace.push(Event::Frame(b)),
         }
+    }
+
+    fn shadow_display(&self) -> bool {
+        SHADOW_DISPLAY.load(std::sync::atomic::Ordering::Relaxed) && lock().as_ref().map(|e| e.active && e.record_counts).unwrap_or(false)
     }
 
     fn cols(&self) -> Option<Option<usize>> {
         lock().as_ref().and_then(|e| e.cols)
+    }
+}
+
+/// When set, executions that record counts also feed a real fancy-console
+/// state (n2::verif shadow display) and record every painted frame.
+pub static SHADOW_DISPLAY: std::sync::atomic::AtomicBool = std::sync::atomic::AtomicBool::new(false);
+
+/// Sends this process's stdout to /dev/null (the shadow display paints there).
+pub fn discard_stdout() {
+    use std::io::Write;
+    use std::os::fd::AsRawFd;
+    let _ = std::io::stdout().flush();
+    if let Ok(f) = std::fs::OpenOptions::new().write(true).open("/dev/null") {
+        unsafe {
+            if SAVED_STDOUT.load(std::sync::atomic::Ordering::SeqCst) < 0 {
+                SAVED_STDOUT.store(libc::dup(1), std::sync::atomic::Ordering::SeqCst);
+            }
+            libc::dup2(f.as_raw_fd(), 1);
+        }
+    }
+}
+
+static SAVED_STDOUT: std::sync::atomic::AtomicI32 = std::sync::atomic::AtomicI32::new(-1);
+
+/// Undoes `discard_stdout` (for the replay command, which reports on stdout).
+pub fn restore_stdout() {
+    use std::io::Write;
+    let _ = std::io::stdout().flush();
+    let fd = SAVED_STDOUT.load(std::sync::atomic::Ordering::SeqCst);
+    if fd >= 0 {
+        unsafe {
+            libc::dup2(fd, 1);
+        }
     }
 }
 
